@@ -10,3 +10,6 @@ open HmcVerif.C17
 #print axioms gradient_is_derivative
 #print axioms coincident_station_term_dropped
 #print axioms dirTerm_of_pos
+#print axioms oriented_transposed
+#print axioms oriented_as_given
+#print axioms oriented_refused
